@@ -13,12 +13,15 @@ class ExportConfigJSON(ExportConfig):
         super().__init__(env, **kwargs)
 
     def parse(self, units:bool = True, **kwargs):
-        data = self.data
-        for key in self.data.keys():
-            if isinstance(data[key], tuple):
+        # the selected data stay as they are, so that parse can be called again with another setting
+        data = {}
+        for key, value in self.data.items():
+            if isinstance(value, tuple):
                 if units:
-                    data[key] = {'value': data[key][0], 'unit': data[key][1]}
+                    data[key] = {'value': value[0], 'unit': value[1]}
                 else:
-                    data[key] = data[key][0]
+                    data[key] = value[0]
+            else:
+                data[key] = value
         self.text = json.dumps(data, **kwargs).strip()
         return self.text
